@@ -68,6 +68,37 @@ def main():
         open(os.path.join(CORPUS, "pipehelp.py"), "w").write(W.PIPEHELP)
         json.dump(index, open(os.path.join(ROOT, "index.json"), "w"), indent=0, sort_keys=True)
         print("corpus:", len(index), "packages")
+    if "--append" in sys.argv:
+        # programs added to the family since the corpus was written: new packages after the existing ones (which stay untouched)
+        index = json.load(open(os.path.join(ROOT, "index.json")))
+        have = {(v["program"], json.dumps(v["variant"], sort_keys=True)) for v in index.values()}
+        n = max(int(k[2:]) for k in index if k[2:].isdigit())
+        added = 0
+        open(os.path.join(CORPUS, "pipelog.py"), "w").write(W.PIPELOG)
+        open(os.path.join(CORPUS, "pipehelp.py"), "w").write(W.PIPEHELP)
+        for sp in select():
+            if any(f["module"].startswith("H:") for f in sp["funcs"]):
+                continue   # needs a second top-level package next to it: not a corpus shape
+            vs = list(S.variants(sp))
+            for v in ([vs[0], vs[-1]] if len(vs) > 1 else vs):
+                if (sp["id"], json.dumps(v, sort_keys=True)) in have:
+                    continue
+                n += 1
+                added += 1
+                pkg, xpkg = f"gc{n:03d}", f"gx{n:03d}"
+                for rel, text in S.render(sp, v, pkg, xpkg).items():
+                    p = os.path.join(CORPUS, rel)
+                    os.makedirs(os.path.dirname(p), exist_ok=True)
+                    open(p, "w").write(text)
+                ents = {}
+                r = S.Renderer(sp, v, pkg, xpkg)
+                for name, e in sp["entries"].items():
+                    f = S._fn(sp, e["fn"])
+                    ents[name] = {"kind": e["kind"], "fn": e["fn"], "module": f"{pkg}.{f['module']}", "path": e.get("path"),
+                                  "args": [r.epv(a) for a in e.get("args", [])], "kwargs": [[k, r.epv(a)] for k, a in e.get("kwargs", [])]}
+                index[pkg] = {"program": sp["id"], "variant": v, "entries": ents}
+        json.dump(index, open(os.path.join(ROOT, "index.json"), "w"), indent=0, sort_keys=True)
+        print("appended", added, "packages; corpus now", len(index))
     if pin:
         from vt.checks import c03
         sigs = c03.corpus_signatures()
